@@ -735,8 +735,9 @@ class unyt_array(np.ndarray):
                     f"Input dtype ({self.dtype}) has a smaller itemsize than the "
                     "smallest floating point representation possible."
                 )
-            self.units = new_units
             values = self.d
+            if not values.flags.writeable:
+                raise ValueError("Can't convert a read-only memory buffer in place.")
             # if our dtype is an integer do the following somewhat awkward
             # dance to change the dtype in-place. We can't use astype
             # directly because that will create a copy and not update self
@@ -765,6 +766,9 @@ class unyt_array(np.ndarray):
 
             if offset:
                 np.subtract(values, offset, values)
+            # relabel last: a refused data step must not leave the new unit on
+            # the old numbers
+            self.units = new_units
         else:
             self.convert_to_equivalent(units, equivalence, **kwargs)
 
@@ -1138,6 +1142,8 @@ class unyt_array(np.ndarray):
         if self.units.same_dimensions_as(conv_unit):
             self.convert_to_units(conv_unit)
             return
+        if not self.flags.writeable:
+            raise ValueError("Can't convert a read-only memory buffer in place.")
         this_equiv = equivalence_registry[equivalence](in_place=True)
         if self.has_equivalent(equivalence):
             this_equiv.convert(self, conv_unit.dimensions, **kwargs)
